@@ -363,12 +363,36 @@ func (c *Ctx) runC13Case(idx int64, depth int, nRandom int64) {
 	n := r.Range(3, 40)
 	count := 0
 	offs := []int{0, m - 1, m, 2*m + 3, 1, 2}
+	// a private model steers the generator (half of the histories): while the battle is live it is mostly
+	// stepped, once it is decided the generator prefers Reset, re-spawning dead warriors and adding new ones
+	steer := r.Chance(1, 2)
+	gm := mars.NewBattle(h.M, h.P, h.C, h.M, h.M)
 	for k := 0; k < n; k++ {
 		var call apiCall
-		switch x := r.Intn(20); {
+		x := r.Intn(20)
+		if steer && count > 0 {
+			dead := -1
+			for i, w := range gm.W {
+				if w.State != mars.Alive {
+					dead = i
+				}
+			}
+			switch {
+			case !gm.Decided() && x < 12:
+				x = 9 // runcycle
+			case !gm.Decided() && x < 14:
+				x = 13 // run
+			case gm.Decided() && dead >= 0 && x < 10:
+				call = apiCall{Kind: "spawn", W: dead, Off: offs[r.Intn(len(offs))]}
+				x = -1
+			case gm.Decided() && x < 13:
+				x = 15 // reset
+			}
+		}
+		switch {
+		case x < 0:
 		case x < 3 && count < 4:
 			call = apiCall{Kind: "add", W: r.Intn(len(h.templates))}
-			count++
 		case x < 9:
 			call = apiCall{Kind: "spawn", W: r.Range(-1, count+1), Off: offs[r.Intn(len(offs))]}
 		case x < 13:
@@ -382,7 +406,23 @@ func (c *Ctx) runC13Case(idx int64, depth int, nRandom int64) {
 		default:
 			call = apiCall{Kind: "getmem", Off: r.Intn(3*m + 4)}
 		}
+		switch call.Kind {
+		case "add":
+			count++
+			gm.Add(h.templates[call.W])
+		case "spawn":
+			gm.Spawn(call.W, call.Off)
+		case "runcycle":
+			gm.RunCycle()
+		case "run":
+			gm.Run()
+		case "reset":
+			gm.Reset()
+		}
 		h.calls = append(h.calls, call)
+	}
+	if steer {
+		c.Inc("steered_histories")
 	}
 	c.Inc("random_histories")
 	if !runHistory(c, h) {
